@@ -94,7 +94,7 @@ CHECKS = {
          "DESIGN.md §4 C16"),
  "C11": ("exploration",
          "hostile-client monitor against a server in a child process without panic handler: per-line completion accounting with NOOP probes, sentinel session of another user, goroutine/RSS/CPU sampling over a control port",
-         "Hostile connections in three protocol states send grammar-generated valid commands, byte-level mutations, 49 hand-written extremes (deep nesting, 2^32/2^64 numbers, MiB-sized atoms, tag-less and empty lines), announced-then-cut literals, pipelined batches and lines cut by RST/close, following the literal protocol. Oracles: child alive; every completely sent line gets exactly one completion with its tag (or an untagged BAD/NO when it has none), verified by a NOOP probe behind it; the connection keeps answering unless the server said BYE after repeated errors; a sentinel session of another user keeps its FETCH answer; afterwards goroutines are back at the start level, RSS < 700 MiB, idle CPU < 1 s per 3 s.",
+         "Hostile connections in three protocol states send grammar-generated valid commands, byte-level mutations, 49 hand-written extremes (deep nesting, 2^32/2^64 numbers, MiB-sized atoms, tag-less and empty lines), announced-then-cut literals, pipelined batches and lines cut by RST/close, following the literal protocol. Oracles: child alive; every completely sent line gets exactly one completion with its tag (or an untagged BAD/NO when it has none), verified by a NOOP probe behind it; the connection keeps answering unless the server said BYE after repeated errors; a sentinel session of another user keeps its FETCH answer; afterwards goroutines are back at the start level, the heap that is live after a forced collection stays under 400 MiB during the run and ends within 300 MiB of its start (RSS alone only triggers the measurement; hard cap 3 GiB), idle CPU < 1 s per 3 s.",
          "A missing completion is only a violation when the child burns CPU or the same bytes hang a second fresh connection (otherwise inconclusive). Work proportional to pattern size x name bytes (LIST with thousands of wildcards, hierarchies beyond ~1000 levels) is kept out of the stream; it is described in DESIGN.md.",
          "DESIGN.md §4 C11"),
  "C12": ("exploration",
